@@ -6,6 +6,7 @@ sys.path.insert(0, os.path.dirname(os.path.dirname(os.path.abspath(__file__))))
 import vf, units
 pat = sys.argv[1]; tier = sys.argv[2] if len(sys.argv) > 2 else 'thorough'
 us = [u for u in units.units(tier) if fnmatch.fnmatch(u['id'], pat)]
+vf.prune_cache(1)
 rs = vf.run_units(us, os.path.join(vf.cache_dir(), 'work'))
 for r in rs:
     n = len(r['obligations']); bad = [o for o in r['obligations'] if o['status'] != 'SUCCESS']
